@@ -331,11 +331,11 @@ class BaseGroupBy(ABC):
         """
         if isinstance(func, str):
             if hasattr(self, func):
-                return getattr(self, func)()
+                return getattr(self, func)(mask=mask)
             else:
-                result = self._grouper.agg(self._values_to_group, func)
+                result = self._grouper.agg(self._values_to_group, func, mask=mask)
         else:
-            result = self._grouper.apply(self._values_to_group, func)
+            result = self._grouper.apply(self._values_to_group, func, mask)
 
         return result
 
